@@ -41,10 +41,12 @@ func NewInitiator(conn net.Conn, handler InitiatorHandler, bufSize int, writeDea
 	return c
 }
 
-// Close is used to cancel the specified Initiator context.
+// Close is used to cancel the specified Initiator context and to stop its handler,
+// so that no sender stays blocked on a handler nobody drains any more.
 func (c *Initiator) Close() {
 	c.conn.Close()
 	c.cancel()
+	c.handler.Stop()
 }
 
 // Send is used to send a FIX message.
